@@ -11,6 +11,8 @@ import (
 	"strings"
 	"testing"
 	"time"
+
+	"github.com/verily-src/fhirpath-go/internal/verifyield"
 )
 
 var (
@@ -177,6 +179,7 @@ func TestSim(t *testing.T) {
 	}
 	processTables = snapTables()
 	_ = setLocal("UTC")
+	verifyield.Hook = yieldHook
 
 	if *fMinimise != "" {
 		runMinimise(t)
